@@ -500,7 +500,8 @@ impl util::BitVec
             let char_counter = util::CharCounter::new(&prev_file_chars);
 
             result.push_str(&format!("{:1$}", contents_str, content_width));
-            result.push_str(&format!(" ; {}", char_counter.get_excerpt(span_location.0, span_location.1)));
+            // (an excerpt that spans several lines stays on the row's line)
+            result.push_str(&format!(" ; {}", char_counter.get_excerpt(span_location.0, span_location.1).replace("\r", "").replace("\n", " ")));
             result.push_str("\n");
 		}
 
@@ -603,7 +604,8 @@ impl util::BitVec
             }
             let span_location = span.span.location().unwrap();
             let char_counter = util::CharCounter::new(&prev_file_chars);
-            result.push_str(&format!("{comment} {}\n", char_counter.get_excerpt(span_location.0, span_location.1)));
+            // (an excerpt that spans several lines stays inside the comment)
+            result.push_str(&format!("{comment} {}\n", char_counter.get_excerpt(span_location.0, span_location.1).replace("\r", "").replace("\n", " ")));
 
 			// bytecode
             let mut contents_str = String::new();
